@@ -76,6 +76,11 @@ func (b *RecBackend) RoundTrip(req *http.Request) (*http.Response, error) {
 	b.Reqs = append(b.Reqs, rr)
 	respond, hold := b.Respond, b.Hold
 	b.mu.Unlock()
+	// like net/http's Transport: a request whose context is already done is not carried out (it stays recorded: it did
+	// reach the proxy's handler)
+	if err := req.Context().Err(); err != nil {
+		return nil, err
+	}
 	if hold != nil {
 		hold(rr)
 	}
